@@ -342,6 +342,25 @@ type BulkCase struct {
 }
 
 func bulkStrings(b *BulkCase) []string {
+	if b.Length == 0 {
+		// mixed lengths 4..16: distinct originals of different lengths through
+		// one instance (a substitute taken from another original would show as
+		// a length change or a collision)
+		out := make([]string, 0, b.Count)
+		seen := map[string]bool{}
+		for i := 0; i < b.Count; i++ {
+			v := b.Start + uint64(i)*b.Stride
+			v ^= v >> 29
+			v *= 0xbf58476d1ce4e5b9
+			v ^= v >> 32
+			x := fmt.Sprintf("%016x", v)[:4+int(v%13)]
+			if !seen[x] {
+				seen[x] = true
+				out = append(out, x)
+			}
+		}
+		return out
+	}
 	space := uint64(1)
 	for i := 0; i < b.Length && i < 8; i++ {
 		space *= 256
@@ -396,9 +415,16 @@ func TestC17Bulk(t *testing.T) {
 	rec := kit.Get("C17")
 	rapid.Check(t, func(rt *rapid.T) {
 		b := &BulkCase{KeySeed: rapid.Uint64Range(1, 1<<20).Draw(rt, "keyseed")}
-		b.Length = rapid.SampledFrom([]int{1, 2, 3, 3, 4, 5, 7, 8, 16}).Draw(rt, "length")
+		b.Length = rapid.SampledFrom([]int{0, 1, 2, 3, 0, 4, 5, 7, 8, 16}).Draw(rt, "length")
 		b.AsBytes = rapid.IntRange(0, 3).Draw(rt, "asbytes") == 0
 		switch b.Length {
+		case 0:
+			b.Count = rapid.SampledFrom([]int{120000, 60000}).Draw(rt, "mixedcount")
+			if thoroughTier() {
+				b.Count *= 3
+			}
+			b.Stride = rapid.Uint64Range(1, 1<<40).Draw(rt, "stride") | 1
+			b.Start = rapid.Uint64().Draw(rt, "start")
 		case 1:
 			b.Count, b.Stride = 256, 1
 		case 2:
@@ -420,6 +446,8 @@ func TestC17Bulk(t *testing.T) {
 		}
 	})
 }
+
+func thoroughTier() bool { return os.Getenv("VERIF_TIER") == "thorough" }
 
 // TestReplay re-executes saved cases without rapid.
 func TestReplay(t *testing.T) {
